@@ -2449,6 +2449,11 @@ func (d *Data) ServeHTTP(uuid dvid.UUID, ctx *datastore.VersionedCtx, w http.Res
 			server.BadRequest(w, r, err)
 			return
 		}
+		// the span sizes a buffer: it must be positive and within the server's request limit
+		if blockBytes := d.BlockSize().Prod() * int64(d.Values.BytesPerElement()); span < 1 || blockBytes < 1 || int64(span) > server.MaxDataRequest/blockBytes {
+			server.BadRequest(w, r, "span of %d blocks is not positive or exceeds this DVID server's set limit (%d bytes)", span, server.MaxDataRequest)
+			return
+		}
 		if action == "get" {
 			data, err := d.GetBlocks(ctx.VersionID(), bcoord, int32(span))
 			if err != nil {
